@@ -1,5 +1,5 @@
 (* Properties_C01.v — C01 (hunk level): applying a conforming diff of A to B to A yields exactly B. *)
-From PatchV Require Import Base Lines Hunk Locator Options Applier Spec_Locate Spec_Apply Proofs_Conf.
+From PatchV Require Import Base Lines Hunk Locator Options Applier Parser World Driver Spec_Locate Spec_Apply Proofs_Conf Proofs_EndToEnd.
 
 (* any option record without -R, -D, --verbose; any -F >= 0, with or without -l, -N, -t, -f, any newline
    mode and reject format; files of fewer than 2^63-1 lines; a patch whose old file is /dev/null (one that
@@ -23,6 +23,29 @@ Theorem stated_place_wins : forall ws F cursor f pre post h,
   locate_hunk f h ws 0 F cursor = Some (mkLoc (length pre) 0 0).
 Proof. exact Proofs_Conf.locate_conf. Qed.
 Print Assumptions stated_place_wins.
+
+(* through the driver: one section of a unified diff of A to B naming a file of the working directory that is a regular,
+   readable, writable file holding A, nothing failing: afterwards the file holds exactly B (terminators as
+   --newline-output asks), its mode is unchanged, every other entry of the tree is untouched (no reject, no backup), no
+   failure is recorded (exit status 0 if this was the only section) *)
+Theorem section_writes_new_version : forall o p f A B,
+  (file_to_patch o = [] /\ out_file_path o = [] /\ dry_run o = false /\ save_backup o = false /\ define_macro o = [] /\
+   verbose o = false /\ reverse_patch_opt o = false /\ (0 <= max_fuzz o)%Z) ->
+  (pfmt p = FUnified /\ poper p = OpChange /\ prereq p = [] /\ old_path p = f /\ new_path p = f /\ new_mode p = 0%N /\
+   f <> devnull /\ f <> [] /\ ~ In 47%N f) ->
+  Conforming A B (hunks p) -> lines_bytes (newline_output o) B <> [] -> (Z.of_nat (length A) < MAXZ)%Z ->
+  forall st s w data mode,
+  fault w = None -> deferred_writes st = [] ->
+  lookup (fs w) f = Some (Reg data mode) -> (mode < 4096)%N -> owner_r mode = true -> owner_w mode = true ->
+  N.land mode write_mask <> 0%N ->
+  split_lines data = A ->
+  exists st' w',
+    process_section o st false p s w = (Ok (st', s), w') /\
+    lookup (fs w') f = Some (Reg (lines_bytes (newline_output o) B) mode) /\
+    (forall q, q <> f -> lookup (fs w') q = lookup (fs w) q) /\
+    had_failure st' = had_failure st /\ deferred_writes st' = [] /\ fault w' = None.
+Proof. exact Proofs_EndToEnd.section_writes_new_version. Qed.
+Print Assumptions section_writes_new_version.
 
 Local Open Scope string_scope.
 (* formerly refuted (known finding K20, fixed in /repo): a context-free insertion at the top of a non-empty file,
